@@ -18,7 +18,7 @@ package cron
 //@ func (*Cron).rem
 //@   ensures[C16.rem_removes_at_most_one] len(c.Timeline) == old(len(c.Timeline)) || (result0 && len(c.Timeline) == old(len(c.Timeline)) - 1)
 //@   ensures[C16.rem_not_found_keeps]     !result0 ==> len(c.Timeline) == old(len(c.Timeline))
-//@   loop 1: invariant[C16.rem_loop] !found && len(c.Timeline) == old(len(c.Timeline))
+//@   loop 1: invariant[C16.rem_loop] len(c.Timeline) == old(len(c.Timeline))
 //@   ghost-ensures cronRemoved == id
 //@   also-modifies cronRemoved
 
